@@ -56,6 +56,16 @@ func init() {
 				}
 			case k < 12:
 				q.Body["choseToMake"] = []string{}
+			case k < 20:
+				// a level may carry a value for something that is not a criterion of the problem (a note, a stale
+				// criterion): only the problem's criteria are looked up
+				if p, ok := mp["params"].(J); ok {
+					if ts, ok := p["thresholds"].([]interface{}); ok && len(ts) > 0 {
+						for _, t := range ts {
+							t.(J)["zz_note"] = float64(r.Intn(3))
+						}
+					}
+				}
 			}
 			dm := q.bind()
 			d, msg := prepareDMP(dm)
